@@ -67,11 +67,12 @@ DocLines(d) ==
       opened == IF d.opn = "own" \/ c = <<>> THEN <<DL("open", 0, 0)>> \o c
                 ELSE <<[c[1] EXCEPT !.t = "open+" \o c[1].t]>> \o Tail(c)
       n == Len(opened)
-  IN IF d.cls = "text" /\ n > 1 THEN [x \in 1..n |-> IF x = n THEN [opened[x] EXCEPT !.t = @ \o "+close"] ELSE opened[x]]
-     ELSE IF d.cls = "text" /\ n = 1 THEN <<[opened[1] EXCEPT !.t = @ \o "+close"]>>
+      suffix == IF d.cls = "textc" THEN "+close#" ELSE "+close"          \* "textc": closing quotes after text AND a trailing comment
+  IN IF d.cls \in {"text", "textc"} /\ n > 1 THEN [x \in 1..n |-> IF x = n THEN [opened[x] EXCEPT !.t = @ \o suffix] ELSE opened[x]]
+     ELSE IF d.cls \in {"text", "textc"} /\ n = 1 THEN <<[opened[1] EXCEPT !.t = @ \o suffix]>>
      ELSE Append(opened, DL(IF d.cls = "comment" THEN "close#" ELSE "close", 0, 0))
 
-HasT(dl, t) == dl.t = t \/ dl.t = "open+" \o t \/ dl.t = t \o "+close" \/ dl.t = "open+" \o t \o "+close"
+HasT(dl, t) == \E pre \in {"", "open+"}, suf \in {"", "+close", "+close#"} : dl.t = pre \o t \o suf
 \* index (0-based, relative to the opening line) of the first line of a given type/group
 FirstIdx(dls, t, g) == LET S == {x \in 1..Len(dls) : HasT(dls[x], t) /\ dls[x].g = g} IN
                         IF S = {} THEN -1 ELSE (CHOOSE x \in S : \A y \in S : x <= y) - 1
